@@ -58,10 +58,18 @@ def parse_module(path):
     for ln in joined:
         m = re.match(r"define\s+(?:[\w\(\)]+\s+)*?(\S+)\s+@([\w\.\$]+)\((.*?)\)\s*(?:local_unnamed_addr)?.*\{", ln)
         if ln.startswith("define"):
-            m = re.match(r"define\s+(.*?)@([\w\.\$]+)\((.*)\)[^\)]*\{", ln)
+            m = re.match(r"define\s+(.*?)@([\w\.\$]+)\(", ln)
             rettype = m.group(1).split()[-1]
+            # balanced-parenthesis scan for the parameter list (the line may continue with a personality clause)
+            i, depth, start = m.end(), 1, m.end()
+            while depth > 0:
+                if ln[i] == "(":
+                    depth += 1
+                elif ln[i] == ")":
+                    depth -= 1
+                i += 1
             args = []
-            for a in split_args(m.group(3)):
+            for a in split_args(ln[start:i - 1]):
                 toks = a.split()
                 if toks:
                     args.append((toks[0], toks[-1]))
@@ -349,6 +357,9 @@ def run_function(funcs, fname, enc, arg_terms, sinks=("sink",), mem_cell=None, m
                 env[dst] = (t1, None if ta is None else "((_ to_fp %d %d) RNE %s)" % (FP[t1][0], FP[t1][1], ta))
             elif op == "load":
                 mm = re.match(r"^load (\S+), (\S+) (%[\w\.]+)", rhs)
+                if not mm:
+                    env[dst] = ("opaque", None)
+                    continue
                 ty, pty, ptr = mm.groups()
                 if cell is not None and ptr in [a[1] for a in f.args] and ty == "i%d" % cell[0]:
                     env[dst] = (ty, cell[1])
@@ -356,6 +367,8 @@ def run_function(funcs, fname, enc, arg_terms, sinks=("sink",), mem_cell=None, m
                     env[dst] = (ty, None)  # opaque load
             elif op == "store":
                 mm = re.match(r"^store (\S+) (.+?), (\S+) (%[\w\.]+)", rhs)
+                if not mm:
+                    continue  # store of a pointer / aggregate constant: no integer state involved
                 ty, v, pty, ptr = mm.groups()
                 if cell is not None and ptr in [a[1] for a in f.args] and ty == "i%d" % cell[0]:
                     tv = val(env, ty, v)
